@@ -44,7 +44,7 @@ MANIFEST = dict(
    note="Trusted: Lean kernel + propext/Classical.choice/Quot.sound; tools/extract; the differential harness and its allocator cap; "
         "glibc qsort/bsearch/realloc. Allocation is a parameter of the model: refusals are covered by 'fails unchanged', exhaustive "
         "failure injection is C08. The model is hand-written: theorems are about the model, the correspondence run is testing. Tie by translation (new): array_list_expand_internal and array_list_shrink are translated from clang's typed AST of the current source into Lean on every run (tools/extract/c2lean.py -> Generated/Translated.lean; size_t arithmetic wraps modulo 2^64) and Lemmas/TranslatedAl.lean proves for all states and arguments that Model/Arraylist.lean returns the same value, leaves the same size / length and asks realloc for exactly new_size * sizeof(void *) bytes, and that no wrap-around occurs on a defined run (expandInternal_agrees, shrink_agrees, delIdx_agrees with its release loop by induction, add_agrees, putIdx_agrees, insertIdx_agrees: every function of arraylist.c that computes a size or a length); rebuilt and axiom-audited with the property theorems.",
-   technique="Lean 4 proof (invariant + refinement, induction over histories) + model/implementation correspondence run",
+   technique="Lean 4 proof (invariant + refinement, induction over histories) + model/implementation correspondence run + agreement theorems with Lean definitions translated from the current C source (clang AST) on every run",
    design="6/C07")
 
 DEFECTS = []
